@@ -54,6 +54,7 @@ def run(chk, repo):
     exit_codes(chk, repo)
     helper_sites(chk, repo)
     helper_brackets(chk, repo)
+    register_requests(chk, repo)
     prog_name(chk, repo)
     r6(chk, repo)
     bracket_writes(chk, repo)
@@ -287,6 +288,51 @@ def address_in_dst(chk, repo, d):
             f"rejects the helper call (R{unparse(sites[0].args[0])} "
             f"!read_ok)") if bad else "addr + 0 is a Sum, calculated into "
            "the requested register")
+
+
+def register_requests(chk, repo):
+    """R05.2: the register a calculate() computes into is the one
+    get_free_register() hands out for the caller's request: `dst` reaches
+    that call as the parameter, untouched.  A calculate() that picks a
+    register on its own (r0, "because the helper leaves the result there")
+    takes it without the ownership check - a pointer somebody keeps in it
+    is overwritten, and the verifier rejects the later access."""
+    n = 0
+    for m in repo.production_modules():
+        for fn in repo.all_functions([m]):
+            if fn.name != "calculate" or "dst" not in param_names(fn):
+                continue
+            calls = [c for c in walk_no_nested(fn) if isinstance(c, ast.Call)
+                     and isinstance(c.func, ast.Attribute) and c.func.attr
+                     == "get_free_register" and c.args and isinstance(
+                         c.args[0], ast.Name) and c.args[0].id == "dst"]
+            if not calls:
+                continue
+            cfg = CFG(fn)
+            rd = ReachingDefs(cfg)
+            for c in calls:
+                nodes = cfg.nodes_containing(c)
+                if not nodes:
+                    continue
+                n += 1
+                redefs = [d_ for d_ in rd.reaching(nodes[0], "dst")
+                          if d_.node is not None and not (
+                              isinstance(getattr(d_.node, "stmt", None),
+                                         (ast.With, ast.withitem)))
+                          and getattr(d_.node, "kind", "") not in (
+                              "with_enter", "with")
+                          # (`dst = None`: no preference - any free
+                          # register, still through the ownership check)
+                          and not (isinstance(getattr(d_, "value", None),
+                                              ast.Constant)
+                                   and d_.value.value is None)]
+                chk.ob("R05.2", func_qual(repo, c), "get_free_register() is "
+                       "asked for the caller's register", not redefs, c,
+                       (f"`dst` is re-bound by "
+                        f"`{unparse(redefs[0].node.stmt)[:50]}` first: the "
+                        f"register is taken whether or not somebody owns "
+                        f"it") if redefs else "the parameter itself")
+    chk.floor("R05.2", "calculate() methods asking for a free register", n, 5)
 
 
 def prog_name(chk, repo):
